@@ -12,7 +12,13 @@ macro_rules! with_property {
             "C02" => Some($f::<$crate::props::c02::C02>($($arg),*)),
             "C03" => Some($f::<$crate::props::c03::C03>($($arg),*)),
             "C04" => Some($f::<$crate::props::c04::C04>($($arg),*)),
+            "C05" => Some($f::<$crate::props::c05::C05>($($arg),*)),
+            "C06" => Some($f::<$crate::props::c06::C06>($($arg),*)),
+            "C07" => Some($f::<$crate::props::c07::C07>($($arg),*)),
+            "C08" => Some($f::<$crate::props::c08::C08>($($arg),*)),
             "C10" => Some($f::<$crate::props::c10::C10>($($arg),*)),
+            "C11" => Some($f::<$crate::props::c11::C11>($($arg),*)),
+            "C12" => Some($f::<$crate::props::c12::C12>($($arg),*)),
             "C13" => Some($f::<$crate::props::c13::C13>($($arg),*)),
             "C14" => Some($f::<$crate::props::c14::C14>($($arg),*)),
             "C15" => Some($f::<$crate::props::c15::C15>($($arg),*)),
@@ -23,4 +29,4 @@ macro_rules! with_property {
     };
 }
 
-pub const ALL_IDS: &[&str] = &["C01", "C02", "C03", "C04", "C10", "C13", "C14", "C15", "C16", "C20"];
+pub const ALL_IDS: &[&str] = &["C01", "C02", "C03", "C04", "C05", "C06", "C07", "C08", "C10", "C11", "C12", "C13", "C14", "C15", "C16", "C20"];
